@@ -107,7 +107,10 @@ Fixpoint gen_se (t : gtype) (x f : string) (nullable : bool) (depth : nat) : sex
 Record param := { p_name : string; p_ann : ann; p_required : bool }.
 
 Definition arg_flags (snake : bool) : pflags := {| f_snake := snake; f_trim := false; f_reserved := false |}.
-Definition pname (snake : bool) (s : string) : string := l2s (process_name (arg_flags snake) (s2l s)).
+(* process_name, then (since /repo a558946) a name equal to `self` or `kwargs` gets one "_" appended *)
+Definition pname (snake : bool) (s : string) : string :=
+  let p := l2s (process_name (arg_flags snake) (s2l s)) in
+  if String.eqb p "self" || String.eqb p "kwargs" then p ++ "_" else p.
 
 (* the serialize function name used for a variable, if any *)
 Definition ser_name (S : schema) (used : option string) : option string :=
